@@ -10,13 +10,15 @@ pub struct C08P;
 pub static C08: C08P = C08P;
 
 /// Subject kinds: how the receiver whose rows are iterated is obtained.
-pub const KINDS: [&str; 9] = ["O", "V1", "V3", "M1", "M2", "N", "D", "DL", "DV"];
+pub const KINDS: [&str; 10] = ["O", "V1", "V3", "M1", "M2", "N", "D", "DL", "DV", "DN"];
 
 /// (parent cols, parent rows, abs start of the receiver) for a receiver of size (c, r).
 pub fn layout(kind: &str, c: usize, r: usize) -> (usize, usize, (usize, usize)) {
     match kind {
         "O" | "D" => (c, r, (0, 0)),
         // direct view over a slice with one surplus row (1 x 1 root for the empty view)
+        // window (1,1)-(1+c,1+r) of a (c+2) x (r+2) view built directly over a slice with a surplus row
+        "DN" => (c + 2, r + 3, (1, 1)),
         "DL" | "DV" => {
             if c == 0 {
                 (1, 1, (0, 0))
@@ -63,6 +65,18 @@ macro_rules! with_subject {
                 let v__ = toodee::TooDeeViewMut::new(c__, r__, $root.data_mut());
                 let $x = &v__;
                 $ro
+            }
+            ("DN", false) => {
+                let mut o__ = toodee::TooDeeViewMut::new(c__ + 2, r__ + 2, $root.data_mut());
+                let v__ = o__.view_mut((1, 1), (1 + c__, 1 + r__));
+                let $x = &v__;
+                $ro
+            }
+            ("DN", true) => {
+                let mut o__ = toodee::TooDeeViewMut::new(c__ + 2, r__ + 2, $root.data_mut());
+                let mut v__ = o__.view_mut((1, 1), (1 + c__, 1 + r__));
+                let $xm = &mut v__;
+                $rw
             }
             ("DV", _) => {
                 let v__ = toodee::TooDeeView::new(c__, r__, $root.data());
